@@ -6,6 +6,7 @@ import (
 	"fmt"
 	"io"
 	"regexp"
+	"sort"
 	"strings"
 
 	"github.com/cloudwego/eino/compose"
@@ -441,7 +442,18 @@ func judgeCancel(c Case, o observed) []finding {
 }
 
 // runMergeSchema: schema.StreamReaderWithConvert + schema.MergeStreamReaders; a convert function panics
-// in a forwarder goroutine. Read everything (bounded) and demand an error item that mentions the panic.
+// in a forwarder goroutine.
+//
+// via=convert: n converted readers are merged (streamReaderWithConvert.toStream forwarders); the merged
+// stream is finite, it is read to EOF and must carry an error item that mentions the panic.
+//
+// via=copy: one converted reader is copied n times and every child is merged with its own array reader
+// (childStreamReader.toStream forwarders). Exactly one child executes the panicking Recv; its forwarder must
+// deliver the panic as its only item. Every merged reader is read like a consumer does (to EOF or the first
+// error item, then closed); one of them must end with an error item that mentions the panic. (The children
+// are deliberately not merged with each other: after the panic the sibling children yield an endless
+// sequence of "recv after stream closed" items, so a reader that contains a sibling never ends and "the
+// panic item arrives within k reads" would be a timing oracle.)
 func runMergeSchema(w *world, c Case) ([]finding, string) {
 	f := failure{kind: c.Kind}
 	mk := func(src int, panics bool) *schema.StreamReader[string] {
@@ -457,46 +469,50 @@ func runMergeSchema(w *world, c Case) ([]finding, string) {
 			return fmt.Sprintf("s%d-%d", src, i), nil
 		})
 	}
-	var srs []*schema.StreamReader[string]
+	var readers []*schema.StreamReader[string]
 	switch c.Via {
 	case "convert":
+		var srs []*schema.StreamReader[string]
 		for s := 0; s < c.Sources; s++ {
 			srs = append(srs, mk(s, s == c.PanicSrc))
 		}
+		readers = append(readers, schema.MergeStreamReaders(srs))
 	case "copy":
-		// children of a copied converted reader are forwarded by childStreamReader.toStream
-		cps := mk(0, true).Copy(2)
-		srs = append(srs, cps[0], cps[1])
-		for s := 2; s < c.Sources; s++ {
-			srs = append(srs, mk(s, false))
+		for _, child := range mk(0, true).Copy(c.Sources) {
+			readers = append(readers, schema.MergeStreamReaders([]*schema.StreamReader[string]{child, schema.StreamReaderFromArray([]string{"plain"})}))
 		}
 	}
-	merged := schema.MergeStreamReaders(srs)
-	defer merged.Close()
 	items, errItems, mention := 0, 0, false
-	eof := false
-	for n := 0; n < 4096; n++ {
-		_, err := merged.Recv()
-		if err == io.EOF {
-			eof = true
-			break
-		}
-		if err != nil {
-			errItems++
-			if strings.Contains(err.Error(), f.text()) {
-				mention = true
+	var others []string
+	for _, r := range readers {
+		for {
+			_, err := r.Recv()
+			if err == io.EOF {
 				break
 			}
-			continue
+			if err != nil {
+				errItems++
+				if strings.Contains(err.Error(), f.text()) {
+					mention = true
+				} else {
+					others = append(others, clean(err))
+				}
+				if c.Via == "copy" {
+					break // first error item ends a consumer's read
+				}
+				continue
+			}
+			items++
 		}
-		items++
+		r.Close()
 	}
-	oc := fmt.Sprintf("merge:mention=%v,eof=%v", mention, eof)
+	oc := fmt.Sprintf("merge:mention=%v", mention)
 	if mention {
 		return nil, oc
 	}
 	if errItems == 0 {
-		return []finding{{"merged-stream:panic-swallowed", fmt.Sprintf("a convert function panicked with %q inside a merged stream; the merged stream delivered %d chunks and ended without any error item", f.text(), items)}}, oc
+		return []finding{{"merged-stream:panic-swallowed", fmt.Sprintf("a convert function panicked with %q inside a merged stream; %d chunks were delivered and every stream ended without any error item", f.text(), items)}}, oc
 	}
-	return []finding{{"merged-stream:panic-value-lost", fmt.Sprintf("a convert function panicked with %q inside a merged stream; the merged stream carried error items but none mentions the panic", f.text())}}, oc
+	sort.Strings(others)
+	return []finding{{"merged-stream:panic-value-lost", fmt.Sprintf("a convert function panicked with %q inside a merged stream; %d chunks and %d error items were delivered but no error item mentions the panic: %v", f.text(), items, errItems, others)}}, oc
 }
